@@ -9,9 +9,14 @@ def rt(name, bound, tier="quick", timeout=300, stubs=None, funcs=None, **kw):
                 funcs=funcs or (SER + DE), bound=bound, stubs=stubs or [], **kw)
 
 
+from props import c16_varremover  # noqa: E402  (engine B: one step of VarRemover::next from an arbitrary tracker state)
+
 PROP = {
-    "level_text": "Encode/decode round trip for every operand of every operation class with an arbitrary suffix (which gives sequences of any length by induction) and decoder totality on the numeric opcode classes are decided. VarRemover ('positions unchanged') is NOT decided: three attempts exceeded memory/time.",
-    "title": "DVI encoding round-trips; decoder is total (variable removal NOT decided)",
+    "level_text": ("Encode/decode round trip for every operand of every operation class with an arbitrary suffix (which gives sequences of any length by induction) and decoder totality on the numeric "
+                   "opcode classes are decided by Kani/CBMC. The w/x/y/z rewriting (VarRemover) is decided by the MIR engine as one inductive step: from an arbitrary state of the position tracker and for each "
+                   "kind of operation with arbitrary operands, the operation emitted moves (h, v) as the original does under the DVI standard, mentions no variable, every other operation passes through "
+                   "unchanged, and the tracked variables stay the standard's (operands bounded by 2^24; stacks of 0-2 saved states)."),
+    "title": "DVI encoding round-trips; decoder is total; variable removal preserves positions (one inductive step)",
     "explanation": (
         "Round trip is decided per opcode class with every operand fully symbolic and an arbitrary suffix after the "
         "encoding: decode(enc(op) ++ suffix) = (op, suffix). By induction over the number of operations this is the "
@@ -23,7 +28,7 @@ PROP = {
         "xxx payloads longer than 2 bytes (xxx2..xxx4 forms need >= 256 payload bytes)",
         "post_post with more than 7 padding bytes",
         "decoder totality for string lengths > 2 and for xxx2-4 / fnt_def2-4 (symbolic string lengths make the memcpy post-processing exceed memory; lengths are pinned to 0..=2) and for set_char/fnt_num single-byte opcodes (covered by the round trips)",
-        "transforms::VarRemover / Values::update ('rewriting a stream to avoid w,x,y,z preserves every position'): NOT decided. dvi::Values clones and compares nested heap vectors; CBMC ran out of memory on 3 symbolic operations (10 min), on 4 (19 min), and a shape-enumerating variant (36 shapes of 3 operations) did not finish in 30 min. A regression there is not detected by this check.",
+        "VarRemover: position overflow (|operand| > 2^24 accumulating past i32), stacks deeper than 2 saved states in one step (the step does not depend on the depth beyond push/pop of the top), the h/v/font part of dvi::Values (not needed by the rewriting; Kani attempts on whole streams ran out of memory, DESIGN.md 2.4)",
     ],
     "assumptions": ["Kani/CBMC model of the Rust semantics and of alloc (Vec/String) is trusted", "rustc MIR as compiled by Kani's pinned toolchain, dev profile with overflow checks"],
     "obligations": [
@@ -62,5 +67,5 @@ PROP = {
         rt("c16_rt_define_font_2_a1n1", "fnt_def2, every 2-byte number; area len 1, name len 1", tier="thorough", timeout=900, stubs=[LOSSY]),
         rt("c16_rt_define_font_3_a1n2", "fnt_def3, every 3-byte number; area len 1, name len 2", tier="thorough", timeout=900, stubs=[LOSSY]),
         rt("c16_rt_define_font_4_a2n0", "fnt_def4, every 4-byte number; area len 2, name len 0", tier="thorough", timeout=900, stubs=[LOSSY]),
-    ],
+    ] + c16_varremover.OBLIGATIONS,
 }
